@@ -249,7 +249,7 @@ def task(p, cse, tier, seed):
                 return {"impl": float(got["state"][i]), "spec": f[i]}
 
             prove_equal(part, PID, f"{key_base}/state[{s}]==f", lift(r1.state.data[i, 0]), specf[s], assumes, tmo, replay=replay, key=f"{key_base}/state[{s}]", info={"program": p.id, "cse": cse, "what": "state", "name": s}, all_vars=allv, witness_constraints=wit, seeded_envs=seeded_envs)
-        for i in range(n):
+        for i in range(n if not p.state_only else 0):
             for j in range(n):
 
                 def replay(e, i=i, j=j):
@@ -307,7 +307,7 @@ def task(p, cse, tier, seed):
                 return {"impl": float(got["state"][i]), "spec": f_[i]}
 
             prove_equal(part, PID, f"{key_base}/second call state[{s}]==f at the new inputs", lift(r3.state.data[i, 0]), to2(specf[s]), assumes2, tmo, replay=replay, key=f"{key_base}/second-call/state[{s}]", info={"program": p.id, "cse": cse, "what": "second-call"}, all_vars=allv2, witness_constraints=wit2)
-        for i in range(n):
+        for i in range(n if not p.state_only else 0):
             for j in range(i, n):
 
                 def replay(e, i=i, j=j):
@@ -419,8 +419,8 @@ def task_repr(p, cse, tier, seed):
 
 def programs_for(tier, seed):
     if tier == "quick":
-        return [CP.P1(), CP.P3(), CP.P10(), CP.P12(), CP.P14(), CP.P17(), CP.P20(), CP.P22(), CP.P3().restrict(control=False), CP.P3().restrict(calibration=False)]
-    ps = CP.all_fixed() + [CP.P22()] + CP.presence_variants(CP.P3())[1:] + CP.presence_variants(CP.P10())[1:]
+        return [CP.P1(), CP.P3(), CP.P10(), CP.P12(), CP.P14(), CP.P17(), CP.P20(), CP.P22(), CP.P24(), CP.P3().restrict(control=False), CP.P3().restrict(calibration=False)]
+    ps = CP.all_fixed() + [CP.P22(), CP.P24()] + CP.presence_variants(CP.P3())[1:] + CP.presence_variants(CP.P10())[1:]
     ps += [CP.random_program(seed, i) for i in range(8)]
     return ps
 
@@ -440,6 +440,7 @@ def run(tier, seed):
     for d in pmap(_dispatch, [(task, t) for t in tasks] + rtasks):
         rep.merge(d)
     rep.bounds = {"programs": [p.id for p in ps], "inputs": "all real dt, state, control, calibration; all symmetric P (proof) - witnesses restricted to diagonally dominant P; all per-control noise > 0", "outside": "floating-point rounding; validity gates treated as assumptions here (their behaviour is C09)"}
+    rep.bounds["state_only_programs"] = "P24 (tiny coefficients): state obligations and concrete differentials only - the derivative constants sympy folds in floats differ from the exact products at 1e-29, exact covariance equality is refuted at that level and the 1e-9-relative claim on a box does not finish within the budget"
     rep.assumptions = ["reals for doubles", "assert_valid_covariance gates assumed to pass (allclose symmetric, eigenvalues >= 0)", "UF abstraction for transcendental functions"]
     return finish(
         rep,
